@@ -16,7 +16,8 @@
 (***************************************************************************)
 EXTENDS Lineshape, TLC
 
-CONSTANTS SNeg, SMax, SDen, LMax, Tier      \* s runs over -SNeg..SMax in steps of 1/SDen
+CONSTANTS SNeg, SMax, SDen, LMax, Tier,     \* s runs over -SNeg..SMax in steps of 1/SDen
+          Families                          \* which of "phsp", "bw", "width", "big" to explore
 SMin == -SNeg
 
 VARIABLE pt
@@ -34,9 +35,10 @@ ZLattice ==
           <<9, 1>>, <<16, 1>>, <<100, 1>>, <<1000, 7>> >>
   ELSE << <<1, 9>>, <<1, 4>>, <<1, 1>>, <<4, 1>>, <<9, 1>>, <<100, 1>> >>
 WidthS == << <<-3, 1>>, <<1, 2>>, <<2, 1>>, <<5, 1>>, <<9, 1>>, <<10, 1>>, <<49, 4>>, <<16, 1>>, <<20, 1>>, <<25, 1>>, <<30, 1>> >>
-WidthM0 == {<<4, 1>>, <<7, 2>>, <<5, 2>>, <<5, 1>>}                \* m0^2 = 16, 49/4, 25/4 (< thr of (1,2)), 25
-WidthMasses == {<<R(1), R(1)>>, <<R(1), R(2)>>, <<R(2), R(1)>>}
-WidthD == {<<1, 1>>, <<1, 2>>, <<2, 1>>}
+WidthM0 == IF Tier = "thorough" THEN {<<4, 1>>, <<7, 2>>, <<5, 2>>, <<5, 1>>}    \* m0^2 = 16, 49/4, 25/4 (< thr of (1,2)), 25
+           ELSE {<<4, 1>>, <<5, 2>>}
+WidthMasses == IF Tier = "thorough" THEN {<<R(1), R(1)>>, <<R(1), R(2)>>, <<R(2), R(1)>>} ELSE {<<R(1), R(1)>>, <<R(1), R(2)>>}
+WidthD == IF Tier = "thorough" THEN {<<1, 1>>, <<1, 2>>, <<2, 1>>} ELSE {<<1, 1>>, <<1, 2>>}
 WidthL == IF Tier = "thorough" THEN 0..4 ELSE {0, 1, 3}
 BigInts == {0, 1, 2, 7, 999, 1000, 1001, 4567, 46340, 46341, 65536, 999999, 1000000, 12345678}
 
@@ -46,15 +48,18 @@ WidthInit == {[fam |-> "width", X |-> X, L |-> L, m0 |-> m0, m |-> m, d |-> d, s
                 X \in Algebraic, L \in WidthL, m0 \in WidthM0, m \in WidthMasses, d \in WidthD}
 BigInit == {[fam |-> "big", a |-> a, b |-> b] : a \in BigInts, b \in BigInts}
 
-Init == \/ pt \in PhspInit
-        \/ pt \in BwInit
-        \/ pt \in WidthInit
-        \/ pt \in BigInit
+\* one initial state; the first step chooses the family member (so that TLC's workers share the lattice)
+Init == pt = [fam |-> "start"]
+Start == /\ pt.fam = "start"
+         /\ \/ "phsp" \in Families /\ pt' \in PhspInit
+            \/ "bw" \in Families /\ pt' \in BwInit
+            \/ "width" \in Families /\ pt' \in WidthInit
+            \/ "big" \in Families /\ pt' \in BigInit
 
 ScanS == pt.fam = "phsp" /\ pt.k < SMax * SDen /\ pt' = [pt EXCEPT !.k = @ + 1]
 ScanZ == pt.fam = "bw" /\ pt.zi < Len(ZLattice) /\ pt' = [pt EXCEPT !.zi = @ + 1]
 ScanW == pt.fam = "width" /\ pt.si < Len(WidthS) /\ pt' = [pt EXCEPT !.si = @ + 1]
-Next == ScanS \/ ScanZ \/ ScanW
+Next == Start \/ ScanS \/ ScanZ \/ ScanW
 Spec == Init /\ [][Next]_pt
 
 S(p) == RNorm(p.k, SDen)
